@@ -3,7 +3,7 @@
 From Coq Require Import ZArith Znumtheory List.
 From Strand Require Import Base.ZUtil Generated.Constants Model.Outcome Model.Backend Model.ZBackend
   Model.Exec Model.Params2048 Model.Ristretto Proofs.Laws Proofs.ZLaws Proofs.ZInst Proofs.PrimeCerts
-  Base.ZpField Base.Edwards Model.RistrettoFast Model.RBackend Proofs.RistrettoGroup.
+  Base.ZpField Base.Edwards Model.RistrettoFast Model.RBackend Proofs.RistrettoGroup Proofs.EdwardsBackend.
 Open Scope Z_scope.
 
 (* the code's own operations satisfy the laws of a commutative group of exponent q acted on by Z_q
@@ -87,6 +87,25 @@ Proof.
           (fun P C => conj (E_onc_neg P C) (E_neg_r P C))))))).
 Qed.
 Print Assumptions C15_edwards_group_law.
+
+(* ... packaged as a backend with Leibniz equality (affine points of order dividing l, ristretto scalar ring): it
+   satisfies the SAME [Laws] record as the multiplicative backends, with no hypothesis; and the executable ristretto
+   backend record maps onto it homomorphically, operation by operation *)
+Theorem C15_edwards_backend_laws : forall K : Kernel, Laws (AB K) memA.
+Proof. exact AB_laws. Qed.
+Print Assumptions C15_edwards_backend_laws.
+
+Theorem C15_ristretto_maps_onto_edwards_backend : forall (K : Kernel) (PM : PMul),
+  aff (b_gen (RB K PM)) = b_gen (AB K) /\ aff (b_one (RB K PM)) = b_one (AB K) /\
+  (forall P Q, valid P -> valid Q ->
+     valid (b_mulp (RB K PM) P Q) /\ aff (b_mulp (RB K PM) P Q) = b_mulp (AB K) (aff P) (aff Q)) /\
+  (forall P, valid P -> exists P', b_invp (RB K PM) P = Ok P' /\ valid P' /\ b_invp (AB K) (aff P) = Ok (aff P')) /\
+  (forall P x, valid P -> valid (b_pow (RB K PM) P x) /\ aff (b_pow (RB K PM) P x) = b_pow (AB K) (aff P) x) /\
+  (forall P Q, valid P -> valid Q -> b_eqb (AB K) (aff P) (aff Q) = true -> b_eqb (RB K PM) P Q = true) /\
+  (forall x y, b_xadd (RB K PM) x y = b_xadd (AB K) x y /\ b_xmul (RB K PM) x y = b_xmul (AB K) x y) /\
+  (forall bs, b_hash_to_exp (RB K PM) bs = b_hash_to_exp (AB K) bs).
+Proof. exact rb_ab_morphism. Qed.
+Print Assumptions C15_ristretto_maps_onto_edwards_backend.
 
 (* non-vacuity: a concrete parameter set meets the hypotheses *)
 Example C15_nonvacuous : GoodParams (mkP 23) /\ member (mkP 23) 4 /\ member (mkP 23) 1.
